@@ -656,6 +656,30 @@ class LexModel:
             return FALSE
         return z3.And(e == p + n, *[self.up(p + k) == ord(W[k]) for k in range(n)])
 
+    def slice_upper_collapsed_is(self, p, e, W):
+        """' '.join(text[p:e].upper().split()) == W  for a slice that neither starts nor ends with
+        whitespace: the words of W separated by runs (>= 1) of str.isspace characters"""
+        words = W.split(' ')
+        if '' in words:
+            return FALSE
+        sp = self.tb.isspacekey
+
+        def rec(k, i):
+            w = words[k]
+            if i + len(w) > self.N:
+                return FALSE
+            here = [self.up(i + j) == ord(w[j]) for j in range(len(w))]
+            j = i + len(w)
+            if k == len(words) - 1:
+                return z3.And(e == j, *here)
+            alts = []
+            run = []
+            for r in range(1, self.N - j):
+                run.append(self.t.pred(sp, j + r - 1))
+                alts.append(z3.And(*run, rec(k + 1, j + r)))
+            return z3.And(*here, z3.Or(*alts)) if alts else FALSE
+        return rec(0, p)
+
     def slice_upper_startswith(self, p, e, W):
         n = len(W)
         if p + n > self.N:
